@@ -112,6 +112,7 @@ func migrationSteps(p *an.Prog) (map[int64]*ssa.Function, int64, bool) {
 func runC13(p *an.Prog, r *an.Run, tier string) {
 	checkOneTxn(p, r, "one-txn")
 	checkSingleStoreWiring(p, r)
+	checkKeySpacesKnown(p, r)
 
 	// ---- propagate
 	fns := badgerPkgFuncs(p)
@@ -573,4 +574,41 @@ func derivesFromCallValue(d *an.Deriv, v ssa.Value) bool {
 		}
 	}
 	return false
+}
+
+// checkKeySpacesKnown: the on-disk format at version dbVersion consists of the key spaces listed in badgerPrefixSpace.
+// A key prefix outside that list is a format change: databases written by the previous release do not contain it, so
+// it needs a version bump and a migration step that builds it (and this table, which describes format dbVersion, has
+// to be extended together with them).
+func checkKeySpacesKnown(p *an.Prog, r *an.Run) {
+	var bad []string
+	n := 0
+	seen := map[string]bool{}
+	for _, fn := range badgerPkgFuncs(p) {
+		an.AllInstrs(fn, func(in ssa.Instruction) {
+			var ops []*ssa.Value
+			for _, op := range in.Operands(ops) {
+				if op == nil || *op == nil {
+					continue
+				}
+				str, ok := an.ConstString(*op)
+				if !ok || !strings.HasPrefix(str, "vip:") || seen[str] {
+					continue
+				}
+				seen[str] = true
+				n++
+				known := false
+				for pre := range badgerPrefixSpace {
+					if strings.HasPrefix(str, pre) {
+						known = true
+					}
+				}
+				if !known {
+					bad = append(bad, "key prefix "+str+" ("+an.FuncName(fn)+", "+p.Pos(in.Pos())+") is not part of the on-disk format of version dbVersion: data written by the previous release lacks it and no migration step builds it")
+				}
+			}
+		})
+	}
+	r.Floor("key-prefix-constants", n, 6)
+	r.Check(len(bad) == 0, "migration", "key-spaces", token.NoPos, "every key space used is part of the current on-disk format", "%s", strings.Join(dedup(bad), "; "))
 }
